@@ -1066,6 +1066,15 @@ func identToken(ident string) rune {
 		return FALSE_P
 	}
 
+	// Keywords are ASCII. An identifier with any other character is not a
+	// keyword, even if Unicode case mapping would fold it to one (U+0130
+	// LATIN CAPITAL LETTER I WITH DOT ABOVE to i, U+212A KELVIN SIGN to k).
+	for i := range len(ident) {
+		if ident[i] >= utf8.RuneSelf {
+			return IDENT_P
+		}
+	}
+
 	// Now try case-insensitive keywords.
 	switch strings.ToLower(ident) {
 	case "is":
